@@ -37,7 +37,7 @@ contract("environment:JSONPathEnvironment._function_return_type",
 contract("environment:JSONPathEnvironment.check_well_typedness", heavy=True,
     requires=["wf_env(self)", "wf_func(func)", "is_arr(args)",
               "all(isinstance(a, Expression) and wf_expr(a, self) for a in seq(args))", "isinstance(token, Token)"],
-    unfold=["wf_func"],
+    unfold=["wf_func", "wf_query", "wf_env", "wf_registry", "wf_call_e"],
     raises_iff=[("JSONPathTypeError",
                  "len(args) != len(func.arg_types) or any(not arg_ok(seq(func.arg_types)[j], seq(args)[j], self) for j in range(len(args)))")],
     loops={1: ["len(args) == len(func.arg_types)", "all(arg_ok(seq(func.arg_types)[j], seq(args)[j], self) for j in range(i1))"]},
@@ -52,8 +52,9 @@ contract("environment:JSONPathEnvironment.validate_function_extension_signature"
                 ("JSONPathTypeError", "has_key(self.function_extensions, str_of(token.value)) and (len(args) != len(get(self.function_extensions, str_of(token.value)).arg_types) or any(not arg_ok(seq(get(self.function_extensions, str_of(token.value)).arg_types)[j], seq(args)[j], self) for j in range(len(args))))")],
     props=["C05"])
 
-contract("parse:Parser._raise_for_non_comparable_function", heavy=True,
+contract("parse:Parser._raise_for_non_comparable_function",
     requires=["wf_env(self.env)", "isinstance(expr, Expression)", "wf_expr(expr, self.env)", "isinstance(token, Token)"],
-    unfold=["wf_env", "wf_registry", "wf_func"],
-    raises_iff=[("JSONPathTypeError", "(isinstance(expr, FilterQuery) and not singular(seq(expr.query.segments), len(expr.query.segments))) or (isinstance(expr, FunctionExtension) and has_key(self.env.function_extensions, str_of(expr.name)) and not (func_return(expr, self.env) == ExpressionType.VALUE))")],
+    unfold=["wf_env", "wf_registry", "wf_func", "wf_query", "wf_call_e"],
+    raises_iff=[("JSONPathSyntaxError", "isinstance(expr, PrefixExpression) or isinstance(expr, LogicalExpression) or isinstance(expr, ComparisonExpression)"),
+                ("JSONPathTypeError", "not (isinstance(expr, PrefixExpression) or isinstance(expr, LogicalExpression) or isinstance(expr, ComparisonExpression)) and ((isinstance(expr, FilterQuery) and not singular(seq(expr.query.segments), len(expr.query.segments))) or (isinstance(expr, FunctionExtension) and has_key(self.env.function_extensions, str_of(expr.name)) and not (func_return(expr, self.env) == ExpressionType.VALUE)))")],
     props=["C05"])
